@@ -71,6 +71,16 @@ def run_case(case):
             inner = rr.random() < 0.5          # test particles inside the innermost planet feel the planets' perturbations much more strongly than distant ones
             for k in range(rr.randint(1, 2)):
                 a_tp = ain / (1.7 + 0.4 * k) if inner else aout * (1.7 + 0.5 * k)
+                # ... but still well separated from it: at least 6 Hill radii between the test particle's orbit (e <= 0.1) and the pericentre
+                # (apocentre) of the neighbouring planet - an eccentric Jupiter next to a/1.7 is a close-encounter system (thorough seed 9)
+                pin_ = min(sysd['planets'], key=lambda q_: q_['a'])
+                pout_ = max(sysd['planets'], key=lambda q_: q_['a'])
+                if inner:
+                    rh_ = pin_['a'] * (pin_['m'] / (3 * mstar)) ** (1.0 / 3)
+                    a_tp = min(a_tp, (pin_['a'] * (1 - pin_.get('e', 0.0)) - 6 * rh_) / 1.1 / (1 + 0.25 * k))
+                else:
+                    rh_ = pout_['a'] * (pout_['m'] / (3 * mstar)) ** (1.0 / 3)
+                    a_tp = max(a_tp, (pout_['a'] * (1 + pout_.get('e', 0.0)) + 6 * rh_) / 0.9 * (1 + 0.3 * k))
                 base.add(m=(rr.choice([0.0, 1e-6]) if tp_type == 1 else 0.0), a=a_tp, e=rr.uniform(0, 0.1), inc=rr.uniform(0, 0.1), f=rr.uniform(0, 6.28), primary=base.particles[0])
                 if inner:
                     P = min(P, 2 * math.pi * math.sqrt(a_tp ** 3 / (G * mstar)))
